@@ -198,7 +198,9 @@ def run_unit(u, desc, tier, seed):
         if nsol == 0:
             # completeness (a): no solution returned => none exists  <=>  a^2+b^2 < c^2 on this path
             goal_none = zc.cmp0(disc - lift(Fraction(1, 10 ** 6)) * lin2, '<=')
-            P('complete/none-returned=>none-exists(or tangent)', goal_none)
+            st_none = P('complete/none-returned=>none-exists(or tangent)', goal_none)
+            if st_none == 'discharged':
+                continue          # decided for every theta: the low-angle ladder below is only needed when this is not discharged
             # concretisation ladder: the same obligation with theta pinned to exact rational points of the unit circle at low Bragg angle,
             # where absolute tolerances in the code bite (reported as decided on this grid only)
             for tt in (Fraction(1, 400), Fraction(1, 120), Fraction(1, 30)):
@@ -232,8 +234,17 @@ def run_unit(u, desc, tier, seed):
         margin = lift(Fraction(1, 10 ** 6))
         pre_m = pre + [zc.cmp0(disc - margin * lin2, '>='), zc.cmp0(lin2, '>')]
         dd = (c0 - c1) * (c0 - c1) + (s0 - s1) * (s0 - s1)
-        u.prove('C09/%s.%s/complete/two-returned-are-distinct' % (modname, FN[group]), pre_m, zc.cmp0(dd, '>'), replay=rp,
-                detail='distinct solutions beyond the tangency margin on path ' + tag, timeout=qt)
+        cert = dd * lin2 - 4 * disc
+        if cert.iszero():
+            # certificate: |(cos,sin)_0 - (cos,sin)_1|^2 . (a^2+b^2) = 4.discriminant (identity on the real outputs), then an abstract inequality
+            u.prove('C09/%s.%s/complete/two-returned-are-distinct/certificate' % (modname, FN[group]), pre, C.resid_goal(zc, [cert]), replay=rp,
+                    detail='distance^2 of the two returned (cos,sin) pairs times (a^2+b^2) equals 4.discriminant on path ' + tag)
+            Dz, Lz, Sz = z3.Reals('Dd Ll Ss')
+            u.prove('C09/%s.%s/complete/two-returned-are-distinct/abstract' % (modname, FN[group]), [Dz * Lz == 4 * Sz, Sz >= z3.RealVal('1/1000000') * Lz, Lz > 0],
+                    Dz > 0, replay=None, detail='D.L = 4S, S >= 1e-6 L, L > 0  =>  D > 0')
+        else:
+            u.prove('C09/%s.%s/complete/two-returned-are-distinct' % (modname, FN[group]), pre_m, zc.cmp0(dd, '>'), replay=rp,
+                    detail='distinct solutions beyond the tangency margin on path ' + tag, timeout=qt)
     # structural facts of the completeness argument (once per unit): the condition is affine in (cos w, sin w)
     aff = affine_check(f, mod, group, g)
     u.prove('C09/%s.%s/complete/condition-affine-in-(cos w,sin w)' % (modname, FN[group]), ctx.base(), z3.BoolVal(bool(aff[0])), replay=None, detail=aff[1])
